@@ -38,10 +38,17 @@ func semUnit(c *Ctx, prop string, p *Prog, txts []string, withVars bool, alsoRep
 			if len(want) > 0 {
 				c.Nontrivial(1)
 			}
+			stepCount, stepBudget = 0, semStepBudget
 			ms, pi := runSafe(v, t)
+			stepBudget = 0
+			c.Max("vm_steps_per_run", stepCount)
 			if pi != nil {
 				c.Violation("RUN-PANIC "+pi.Site, fmt.Sprintf("%q on %q panics: %s", src, t, pi.Msg),
 					map[string]any{"kind": "spans", "src": src, "text": t, "want": fmtSpans(want, withVars), "vars": withVars})
+				if pi.Site == "STEP-BUDGET" {
+					c.Expensive()
+					return
+				}
 				continue
 			}
 			got := spansOf(ms)
@@ -69,6 +76,10 @@ func semUnit(c *Ctx, prop string, p *Prog, txts []string, withVars bool, alsoRep
 		}
 	}
 }
+
+// semStepBudget bounds one Run inside the semantic checks (the largest legitimate
+// count of their scopes is reported as maxima.vm_steps_per_run and is far below).
+const semStepBudget = 3_000_000
 
 func firstLine(s string) string {
 	if i := strings.IndexByte(s, '\n'); i >= 0 {
@@ -176,6 +187,15 @@ func runC01(c *Ctx) {
 			if c.Unit(func() string { return progDesc(p) }) {
 				c.Count("programs", 1)
 				semUnit(c, "C01", p, texts("a\n", 4), false, false)
+			}
+		}
+	}
+	if c.Level("D7r:recursion") {
+		for _, p := range d7rPrograms() {
+			p := p
+			if c.Unit(func() string { return progDesc(p) }) {
+				c.Count("programs", 1)
+				semUnit(c, "C01", p, texts(alphaD2, 3), false, false)
 			}
 		}
 	}
